@@ -83,6 +83,9 @@ class CallMixin:
         res_types = sig.get('results', []) if sig.get('kind') == 'signature' else []
         if isinstance(fv, tuple) and fv and fv[0] == 'invoke':
             _, recv, iface, method = fv
+            ps = self.ifacespecs.get((recv, method)) if is_term(recv) else None
+            if ps is not None:
+                return self.apply_param_contract(ctx, ins, st, ps, args, res_types)
             spec = self.find_iface_spec(iface, method)
             if spec is not None:
                 return self.apply_contract(ctx, ins, st, spec, recv, iface, args, res_types, iface.rsplit('/', 1)[-1] + '.' + method)
@@ -549,9 +552,11 @@ class CallMixin:
     # ------------------------------------------------------------ top level
     def run(self):
         fn, spec = self.fn, self.spec
+        T.reset_counter()
         self.call_stack = [fn['name']]
         self.cell_types = {}
         self.fnspecs = {}
+        self.ifacespecs = {}
         self.go_sites = []
         self.spawned = False
         self.top_frame = self.new_frame()
@@ -600,11 +605,22 @@ class CallMixin:
                     self.elab_fail('requires %r: %s' % (c.text, e), c)
             for path, ps in spec.params.items():
                 try:
-                    v, tn = self.eval(parse_expr(path), env)
-                    if is_term(v):
-                        self.fnspecs[v] = ps
-                    else:
-                        self.elab_fail('param %s: not a function value' % path)
+                    ast = parse_expr(path)
+                    done = False
+                    if ast[0] == 'sel':
+                        try:
+                            rv, rt = self.eval(ast[1], env)
+                            if is_term(rv) and rt and self.ty.kind(rt) == 'interface':
+                                self.ifacespecs[(rv, ast[2])] = ps
+                                done = True
+                        except Unsupported:
+                            pass
+                    if not done:
+                        v, tn = self.eval(ast, env)
+                        if is_term(v):
+                            self.fnspecs[v] = ps
+                        else:
+                            self.elab_fail('param %s: not a function value' % path)
                 except Unsupported as e:
                     self.elab_fail('param %s: %s' % (path, e))
         self.cover('pre', st)
